@@ -4,8 +4,9 @@ code -> spec: the real JobControl + ScriptJob + Machine + Clock run on real thre
 deterministic scheduler with virtual time, over SimLan.  Script shapes: straight-line, infinite
 repeat, timed (1 s and 1000 s delays), time-of-day wait.  A requester thread issues stop_job /
 stop_current / stop-all through the web layer's own entry points (WebApp.stop_script / stop_current / stop_all)
-  - systematically at EVERY scheduling point (once undisturbed, and at every other point racing with the
-    job and clock threads under a seeded random continuation) of a reference run after the job thread entered
+  - systematically at EVERY scheduling point (once undisturbed; at every other point racing with the job and
+    clock threads under a seeded random continuation; at every twelfth point (every third in the thorough tier) with exactly one preemption of the
+    request by the job thread at each odd step of the call) of a reference run after the job thread entered
     execute() (switch points: every source line of job_control.py, script_job.py, machine.py,
     clock.py and every lock/event/sleep operation), and
   - at random points of seeded random-walk schedules;
@@ -70,7 +71,7 @@ def web_app(world):
         return None
 
 
-def scenario(policy, shape, kind, inject_at=None, line_level=True, requester=True, prio=True):
+def scenario(policy, shape, kind, inject_at=None, line_level=True, requester=True, prio=True, preempt_at=None):
     """One execution.  Returns sched with .events (for TraceStop) and .meta."""
     sched = detsched.Sched(policy, trace_files=rtworld.TRACE_FILES if line_level else (), max_steps=12000)
     world = rtworld.RtWorld(sched, POP, tick=TICK)
@@ -103,6 +104,8 @@ def scenario(policy, shape, kind, inject_at=None, line_level=True, requester=Tru
                 events.append({'e': 'started', 'r': run})
                 if run == 1:
                     state['a_started'] = True
+                self.watch_clock(run)
+                state['job_tid'] = sched.me().tid
                 try:
                     super().execute()
                 finally:
@@ -112,6 +115,38 @@ def scenario(policy, shape, kind, inject_at=None, line_level=True, requester=Tru
                     lag_us = int(round((sched.vtime - state['stop_time']) * 1000000)) if state['stop_time'] is not None else 0
                     events.append({'e': 'ended', 'r': run, 'steps': lag_steps, 'us': lag_us})
                     state['current'][self.dev] = None
+
+            def watch_clock(self, run):
+                """Logs the return of every delay of this run and whether it came before the delay was due (only a
+                stop ends a delay early).  Wraps the two waiting methods of the Machine's own clock object."""
+                clock = getattr(getattr(self, '_machine', None), '_clock', None)
+                if clock is None or not hasattr(clock, 'pause_for') or not hasattr(clock, 'wait_until'):
+                    return
+                self.clock_run = run
+                if getattr(clock, 'verif_watched', None) is self:
+                    return
+                clock.verif_watched = self
+                pause_for, wait_until = clock.pause_for, clock.wait_until
+                tm, dt = world.clock_mod.time, world.clock_mod.datetime
+                job = self
+
+                def watched_pause(delay):
+                    try:
+                        return pause_for(delay)
+                    finally:
+                        if not sched.abort:
+                            start, cue = getattr(clock, '_start_time', None), getattr(clock, '_cue_time', None)
+                            early = isinstance(start, float) and isinstance(cue, (int, float)) and tm.time() < start + cue - 1e-9
+                            events.append({'e': 'delay_ret', 'r': job.clock_run, 'early': bool(early)})
+
+                def watched_until(pattern):
+                    try:
+                        return wait_until(pattern)
+                    finally:
+                        if not sched.abort:
+                            now = dt.now()
+                            events.append({'e': 'delay_ret', 'r': job.clock_run, 'early': not pattern.match(now.hour, now.minute)})
+                clock.pause_for, clock.wait_until = watched_pause, watched_until
 
         names = {}
 
@@ -180,6 +215,12 @@ def scenario(policy, shape, kind, inject_at=None, line_level=True, requester=Tru
                     if inject_at is not None or policy_wants_stop(s):
                         s.wake(gate)
                         s.priority = req.tid if prio else None
+                        state['wake_step'] = s.steps
+                elif preempt_at is not None and state.get('wake_step') is not None and not state.get('preempted') \
+                        and s.steps - state['wake_step'] >= preempt_at and state.get('job_tid') is not None:
+                    # one preemption inside the stop call: the job thread runs until it blocks, then the request goes on
+                    s.priority = state['job_tid']
+                    state['preempted'] = True
             def policy_wants_stop(s):
                 rng = getattr(policy, 'rng', None)
                 return rng is None or rng.random() < 0.02
@@ -207,6 +248,12 @@ def task(args):
         for idx, at in enumerate(points):
             sched = scenario(detsched.Replay(prefix), shape, kind, inject_at=at)
             out.append((shape, kind, 'inject@%d' % at, [c[1] for c in sched.choices][:400], sched.events, sched.meta))
+            every = 12 if stride >= 7 else 3
+            if idx % every == every // 4:
+                # the same point with exactly one preemption of the request by the job thread, at every k-th step of the call
+                for k in range(1, 44, 2):
+                    sched = scenario(detsched.Replay(prefix), shape, kind, inject_at=at, preempt_at=k)
+                    out.append((shape, kind, 'preempt@%d+%d' % (at, k), [c[1] for c in sched.choices][:400], sched.events, sched.meta))
             if idx % 2 == 0:
                 # the same point, but the request races with the other threads instead of running undisturbed
                 sched = scenario(ReplayThenWalk(prefix, at, seed * 1000 + at), shape, kind, inject_at=at, prio=False)
